@@ -18,12 +18,12 @@ RULE = ('inputs: corpus, Annex A derivations in 5 layouts (one alternative force
         'products operator x left-operand class x right-operand class, member/call/new on every primary kind, '
         'keyword x following token class, every statement kind as body of if/else/loops/labels/with (quick: every '
         '6th binary product); configurations: indent strings "", " ", two spaces, four spaces, TAB, " TAB". '
-        'A case = (text, indent); non-trivial = at least 8 tokens and at least 2 node kinds; distinct by (text, indent).')
+        'every second case is first printed by a printer object that has an abandoned and a completed walk behind it (the re-print by a fresh one). A case = (text, indent); non-trivial = at least 8 tokens and at least 2 node kinds; distinct by (text, indent).')
 ASSUMPTIONS = ['inputs the real parser rejects are skipped (C03/C04 report those); "any conforming ES5 parser" is '
                'checked with refjs only for inputs refjs itself reads as the same tree (else input_not_es5)',
                'nesting depth is bounded (RecursionError in the recursive printers is a resource limit)']
 BUDGET_S = {'quick': 70, 'thorough': 900}
-REQUIRED_HITS = ['pretty_print', 'reparse', 'fixpoint_compared', 'reference_reread']
+REQUIRED_HITS = ['pretty_print', 'reparse', 'fixpoint_compared', 'reference_reread', 'used_printer']
 FLOOR = {'quick': 3000, 'thorough': 60000}
 
 INDENTS = ['  ', '\t', '', ' ', '    ', ' \t']
@@ -62,9 +62,15 @@ def selfcheck(ctx):
     return len(planted) + 2
 
 
-def roundtrip(p, indent):
+def roundtrip(p, indent, history=False):
     from calmjs.parse.unparsers.es5 import pretty_print
-    o1 = pretty_print(p.tree, indent_str=indent)
+    if history:
+        # the statement holds for the output of any pretty printer object, also one that has an abandoned
+        # and a completed walk behind it: the first print goes through such an object, the second through
+        # a fresh one
+        o1 = ''.join(chunk.text for chunk in printing.used_printer(indent)(p.tree))
+    else:
+        o1 = pretty_print(p.tree, indent_str=indent)
     t2, c2, err2 = printing.reparse(o1)
     o2 = pretty_print(t2, indent_str=indent) if t2 is not None else None
     ref_c = ref_err = None
@@ -82,8 +88,11 @@ def check(ctx, text, indents, origin, key=None):
     for k in p.kinds:
         ctx.extra.setdefault('node_kinds_printed__set', set()).add(k)
     for indent in indents:
+        history = bool((len(text) + len(indent)) & 1) if key is None else bool(key)
+        if history:
+            ctx.hit('used_printer')
         try:
-            o1, c2, err2, o2, ref_c, ref_err = roundtrip(p, indent)
+            o1, c2, err2, o2, ref_c, ref_err = roundtrip(p, indent, history)
         except RecursionError:
             ctx.count('skipped:resource_limit')
             continue
@@ -105,7 +114,7 @@ def check(ctx, text, indents, origin, key=None):
                 if p2 is None:
                     return False
                 try:
-                    r = roundtrip(p2, indent)
+                    r = roundtrip(p2, indent, history)
                 except RecursionError:
                     return False
                 j = judge(p2.ci, r[0], r[1], r[2], r[3], r[4], r[5], p2.es5)
@@ -116,8 +125,10 @@ def check(ctx, text, indents, origin, key=None):
                     small = minimise_text(text, failing, 200)
                 except Exception:
                     small = text
-            ctx.violation(mech, {'text': small, 'indent': indent, 'original': text if small != text else None},
-                          '%s\ninput: %r\nindent: %r' % (detail, small[:300], indent))
+            ctx.violation(mech, {'text': small, 'indent': indent, 'original': text if small != text else None,
+                                 'history': history},
+                          '%s\ninput: %r\nindent: %r%s' % (detail, small[:300], indent,
+                                                          ' (printer object used before)' if history else ''))
             break
 
 
@@ -163,7 +174,7 @@ def run(ctx):
 def replay(ctx, witness):
     for key in ('text', 'original'):
         if witness.get(key):
-            check(ctx, witness[key], [witness.get('indent', '  ')], 'replay')
+            check(ctx, witness[key], [witness.get('indent', '  ')], 'replay', key=int(bool(witness.get('history'))))
 
 
 def canary(ctx, spec):
